@@ -129,7 +129,9 @@ def Q2_Q3_table(ctx):
     okb = False
     for p in feasible(bl.paths()):
         w = [e for e in p.events if e.kind == 'assign' and e.d['place'][0] == 'field' and e.d['place'][2].endswith('GrevmConfig.delegated_safety')]
-        rp = [e for e in p.events if e.kind == 'call' and callee_matches(e.d['callee'], ('::then', '::then_some')) and mentions_field(e.d['args'][0], 'reserve_delegated_balance')]
+        # first use of the policy: the planner is built iff reserve_delegated_balance (then / then_some / if)
+        rp = [e for e in p.events if (e.kind == 'call' and callee_matches(e.d['callee'], ('::then', '::then_some')) and mentions_field(e.d['args'][0], 'reserve_delegated_balance'))
+              or (e.kind == 'atom' and bool_fact(e) and mentions_field(bool_fact(e)[0], 'reserve_delegated_balance'))]
         if w and has_call(w[0].d['value'], 'DelegatedSafetyConfig::for_spec') and is_field(strip([c for c in calls_in(w[0].d['value']) if c[1].endswith('for_spec')][0][2][1]), 'CfgEnv.spec') \
                 and rp and idx_of(p, rp[0]) > idx_of(p, w[0]):
             okb = True
@@ -367,6 +369,7 @@ def H4_debits(ctx):
     f = ctx.fn(fs[0])
     ps = live(f.paths(max_visits=2))
     n = 0
+    n_designator = [0]
     bad = []
     kinds = set()
     for p in ps:
@@ -380,19 +383,23 @@ def H4_debits(ctx):
             if e.kind == 'call' and e.d['callee'].endswith('Entry::or_insert') or (e.kind == 'call' and norm_callee(e.d['callee']).endswith('::or_insert') and 'entry' in show(e.d['args'][0])):
                 n += 1
                 i = idx_of(p, e)
-                isd = [a for a in p.events[:i] if a.kind == 'atom' and a.d['term'][0] == 'call' and callee_matches(a.d['term'][1], '::is_some_and') and a.d['outcome'] == 'true']
+                # the recorded source's current code was found to be an EIP-7702 designator on this path
+                ent = [c for c in calls_in(e.d['args'][0]) if norm_callee(c[1]).endswith('::entry')]
+                key = ent[0][2][1] if ent and len(ent[0][2]) > 1 else None
+                isd = []
+                for a in p.events[:i]:
+                    bf = bool_fact(a)
+                    if bf and bf[1] is True and bf[0][0] == 'call' and bf[0][1].endswith('Bytecode::is_eip7702') and mentions_field(bf[0], 'AccountInfo.code') \
+                            and (key is None or mentions(strip(bf[0]), strip(key))):
+                        isd.append(a)
                 if not isd:
                     bad.append('a debit source is recorded without the delegation-designator test')
+                else:
+                    n_designator[0] += 1
     rp = [a for p in ps for a in p.events if a.kind == 'atom' and a.d['term'][0] == 'call' and a.d['term'][1].endswith('is_root_value_transfer')]
     ctx.ob('H4', f, 'debit-scan', n >= 1 and kinds == {'BalanceTransfer', 'AccountDestroyed'} and rp and not bad, f'first-debit inserts={n} sources={sorted(kinds)} root-transfer test={bool(rp)} {bad[:2]}', site=f.loc(f.b['lo']),
            what='surviving journal entries after the checkpoint are scanned; the root value transfer is excluded once; sources are BalanceTransfer.from and AccountDestroyed.address; only sources whose code is an EIP-7702 designator are kept, and the FIRST debit index is kept (or_insert)')
-    okd = False
-    for c in ctx.facts.closures_under(f.name):
-        if True:
-            for bl in c['blocks']:
-                if bl['term']['k'] == 'call' and bl['term']['callee'].endswith('Bytecode::is_eip7702'):
-                    okd = True
-    ctx.ob('H4', f, 'designator-test-is-eip7702-code', okd, '', site=f.loc(f.b['lo']))
+    ctx.ob('H4', f, 'designator-test-is-eip7702-code', n_designator[0] >= 1, f'{n_designator[0]} recorded source(s) guarded by Bytecode::is_eip7702 on their own code', site=f.loc(f.b['lo']))
     r = ctx.fn('delegated_safety::reserve::is_root_value_transfer')
     okr = False
     rows = set()
